@@ -946,3 +946,87 @@ fn shared_group_hands_each_message_to_exactly_one_member() {
     }
     report(name, "C17", "3 strategies x 1..3 members x 0,1,5,12 messages x QoS 0/1 x (no one / first / second member leaves midway); members consume and acknowledge promptly", cases, fail);
 }
+
+// ---------------------------------------------------------------------------------------------
+// C19 (router part): one live connection per client id, connection limit, client-id metacharacters
+// ---------------------------------------------------------------------------------------------
+// @native props=C19,C14 tier=quick fn=Router::{handle_new_connection,handle_disconnection}+validate_clientid
+#[test]
+fn one_session_per_client_id_and_connection_limit() {
+    let name = "rumqttd::Router::handle_new_connection#one_live_connection_per_id_within_limit";
+    #[derive(Clone, Copy, Debug)]
+    enum A { Conn(usize, bool), Drop(usize) }
+    let names = ["a", "b", "c", "x+y", "$sys", "p/q", "h#"];
+    let mut acts = vec![];
+    for i in 0..names.len() {
+        acts.push(A::Conn(i, true));
+        if i < 3 {
+            acts.push(A::Conn(i, false));
+            acts.push(A::Drop(i));
+        }
+    }
+    let depth = env_usize("VERIF_ADMIT_DEPTH", 4);
+    let n = acts.len();
+    let mut cases = 0u64;
+    let mut fail: Option<String> = None;
+    'outer: for code in 0..n.pow(depth as u32) {
+        cases += 1;
+        let mut r = Router::new(0, RouterConfig { max_connections: 2, ..cfg(1024 * 1024, 10, Strategy::RoundRobin) });
+        let mut live: Vec<Option<Client>> = vec![None, None, None];
+        let mut c = code;
+        let mut seq = vec![];
+        for _ in 0..depth {
+            let a = acts[c % n];
+            c /= n;
+            seq.push(a);
+            match a {
+                A::Conn(i, clean) => {
+                    let before = r.connections.len();
+                    let had = i < 3 && live[i].is_some();
+                    let got = connect(&mut r, names[i], clean);
+                    let legal = !names[i].chars().any(|ch| "+$#/".contains(ch));
+                    if !legal {
+                        if got.is_some() || r.connections.len() != before {
+                            fail = Some(format!("input=[{:?}] detail=[client id {:?} with a topic metacharacter reached the routing core]", seq, names[i]));
+                            break 'outer;
+                        }
+                        continue;
+                    }
+                    // the new connection replaces a previous one with the same id; otherwise it needs a free slot
+                    let room = had || before < 2;
+                    if got.is_some() != room {
+                        fail = Some(format!("input=[{:?}] detail=[connect {:?}: registered = {}, {} live before, same id live = {}]", seq, names[i], got.is_some(), before, had));
+                        break 'outer;
+                    }
+                    if got.is_some() {
+                        live[i] = got;
+                    } else if had {
+                        live[i] = None;
+                    }
+                }
+                A::Drop(i) => {
+                    if let Some(cl) = live[i].take() {
+                        r.events(cl.id, Event::Disconnect);
+                        settle(&mut r);
+                    }
+                }
+            }
+            // invariants after every step
+            let nlive = live.iter().filter(|x| x.is_some()).count();
+            if r.connections.len() > 2 || r.connections.len() != nlive || r.connection_map.len() != nlive || r.obufs.len() != nlive || r.ibufs.len() != nlive {
+                fail = Some(format!("input=[{:?}] detail=[{} live connections, map {}, buffers {}/{} — expected {} (limit 2)]", seq, r.connections.len(), r.connection_map.len(), r.ibufs.len(), r.obufs.len(), nlive));
+                break 'outer;
+            }
+            for (i, cl) in live.iter().enumerate() {
+                if let Some(cl) = cl {
+                    let ok = r.connection_map.get(names[i]) == Some(&cl.id) && r.obufs.get(cl.id).map_or(false, |o| Arc::ptr_eq(&o.data_buffer, &cl.obuf));
+                    if !ok {
+                        fail = Some(format!("input=[{:?}] detail=[the newest connection of {:?} is not the registered one]", seq, names[i]));
+                        break 'outer;
+                    }
+                }
+            }
+        }
+    }
+    report(name, "C19,C14", &format!("all sequences of {} connect(clean/persistent)/disconnect actions over 3 legal and 4 illegal client ids, connection limit 2", depth), cases, fail);
+}
